@@ -388,6 +388,25 @@ func RunConcurrent(r *rand.Rand, path string, p Params) (h *History, fatal strin
 	}()
 	h.Events = rc.Events
 	rc.On = false
+	if p.OnQuiescent != nil && h.LiveDiff == "" && fatal == "" {
+		q := &Quiescent{DB: db, Model: map[string][]rm.Row{}, Ended: h.Txns}
+		for _, td := range p.Tables {
+			for c := range cs {
+				for _, row := range cs[c].rows[td.Name] {
+					q.Model[td.Name] = append(q.Model[td.Name], row)
+				}
+			}
+		}
+		for c := range cs {
+			for id := int32((c + 1) * 100000); id < cs[c].nextID; id++ {
+				q.IDs = append(q.IDs, id)
+			}
+			if cs[c].nextID > q.MaxID {
+				q.MaxID = cs[c].nextID
+			}
+		}
+		p.OnQuiescent(q)
+	}
 	func() {
 		defer func() { recover() }()
 		db.S.ShutdownForTescase()
